@@ -12,9 +12,9 @@ package baggage_test
 //                copies and contexts re-read after every step
 
 import (
-	"net/http"
 	"context"
 	"fmt"
+	"net/http"
 	"runtime/debug"
 	"sort"
 	"strings"
